@@ -4,7 +4,9 @@ import StorageModel.Base.Bytes
   Tx/Wire — line protocol of the C07 / C08 drivers: case parser and canonical rendering of
   results, logs and the leaf dump of the database.  Used only by the drivers, never by a proof.
 
-  case  := "E" nP reg* nC reg* txl "T" ntx tx*
+  case  := "E" nP reg* nC reg* txl ["I" nIxP ixreg* nIxC ixreg*] "T" ntx tx*
+  ixreg := nveto (stage id)*                  stage: b (ProcessBeforeUpdate) a (ProcessAfterUpdate) d (ProcessBeforeDelete)
+           custom boltz.Constraint registered with AddConstraint on the parent / child store
   reg   := "l" style ntypes type*            style: t f u i     type: c u d (sync) C U D (async)
          | "c" typed nveto (kind id)*        typed: t u         kind: c u d
   tx    := "tx" mode reuse nsteps step*      mode: u b          reuse: 0 1
@@ -111,6 +113,20 @@ def reg : P Reg := fun ts => do
     pure (.constraint typed vs, ts)
   | _ => none
 
+def stageOf : String → Option Stage
+  | "b" => some .beforeUpdate
+  | "a" => some .afterUpdate
+  | "d" => some .beforeDelete
+  | _ => none
+
+def ixVeto : P (Stage × String) := fun ts => do
+  let (k, ts) ← tok ts
+  let k ← stageOf k
+  let (id, ts) ← str ts
+  pure ((k, id), ts)
+
+def ixReg : P IxReg := counted ixVeto
+
 def fault : P Fault := fun ts => do
   let (t, ts) ← tok ts
   if t = "-" then pure (.none, ts)
@@ -209,6 +225,8 @@ structure Case where
   regsP : List Reg
   regsC : List Reg
   txListeners : Nat
+  ixP : List IxReg
+  ixC : List IxReg
   txs : List TxSpec
 
 def parseCase (line : String) : Option Case := do
@@ -220,10 +238,17 @@ def parseCase (line : String) : Option Case := do
     let (rc, ts) ← counted reg ts
     let (txl, ts) ← nat ts
     let (t, ts) ← tok ts
+    let ((ixp, ixc, t), ts) ←
+      (if t = "I" then do
+        let (ixp, ts) ← counted ixReg ts
+        let (ixc, ts) ← counted ixReg ts
+        let (t, ts) ← tok ts
+        pure ((ixp, ixc, t), ts)
+      else pure (([], [], t), ts) : Option ((List IxReg × List IxReg × String) × List String))
     if t ≠ "T" then none
     else
       let (txs, ts) ← counted txSpec ts
-      if ts.isEmpty then pure { regsP := rp, regsC := rc, txListeners := txl, txs := txs } else none
+      if ts.isEmpty then pure { regsP := rp, regsC := rc, txListeners := txl, ixP := ixp, ixC := ixc, txs := txs } else none
 
 /-! ## rendering -/
 
@@ -267,6 +292,7 @@ def renderErr : Err → String
   | .fkMissing => "fk"
   | .refExists => "refexists"
   | .veto σ i => "veto:" ++ renderStore σ ++ "." ++ toString i
+  | .ixVeto σ i => "ixveto:" ++ renderStore σ ++ "." ++ toString i
   | .caller t => "caller:" ++ toString t
   | .preCommit t => "pre:" ++ toString t
   | .parse => "parse"
@@ -277,6 +303,18 @@ def b01 (b : Bool) : String := if b then "1" else "0"
 
 def renderPre (p : PreCall) : String :=
   renderStore p.store ++ "." ++ toString p.reg ++ "." ++ renderKind p.kind ++ "." ++ abbr p.id ++ "." ++ b01 p.parentEvent
+
+def renderStage : Stage → String
+  | .beforeUpdate => "b"
+  | .afterUpdate => "a"
+  | .beforeDelete => "d"
+
+def renderIx (c : IxCall) : String :=
+  "I." ++ renderStore c.store ++ "." ++ toString c.reg ++ "." ++ renderStage c.stage ++ "." ++ abbr c.id ++ "." ++ b01 c.isCreate
+
+def renderLog : LogItem → String
+  | .pre c => renderPre c
+  | .ix c => renderIx c
 
 def styleOf (env : Env) (σ : StoreId) (i : Nat) : Option Style :=
   match (env.regs σ)[i]? with
@@ -343,7 +381,7 @@ def renderTx (env : Env) (before : Db) (o : TxOut) : String :=
   let dump := if o.inexact then "inexact" else renderDump before o.db
   " ".intercalate
     ["r=" ++ r, "same=" ++ b01 (dumpLeaves before == dumpLeaves o.db), "runs=" ++ toString o.runs,
-     "pre=" ++ renderList (o.preLog.map renderPre), "pa=" ++ renderList (o.preRan.map toString),
+     "pre=" ++ renderList (o.preLog.map renderLog), "pa=" ++ renderList (o.preRan.map toString),
      "sync=" ++ renderList (syncLog env o.fired), "async=" ++ renderList (sortStr (asyncLog env o.fired)),
      "ca=" ++ renderList (sortStr (commitActionLog o.fired)), "dump=" ++ dump]
 
@@ -371,14 +409,14 @@ def modelLine (t : CrudReturns) (line : String) : String :=
   | some c =>
     if !t.recognised then "model-unknown"
     else
-      let env : Env := { regsP := c.regsP, regsC := c.regsC, txListeners := c.txListeners, t := t }
+      let env : Env := { regsP := c.regsP, regsC := c.regsC, txListeners := c.txListeners, t := t, ixP := c.ixP, ixC := c.ixC }
       " | ".intercalate (renderCase env [] (runCase env c.txs [] Ctx.empty))
 
 def specLine (line : String) : String :=
   match parseCase line with
   | none => "bad-case"
   | some c =>
-    let env : Env := { regsP := c.regsP, regsC := c.regsC, txListeners := c.txListeners, t := expectedReturns }
+    let env : Env := { regsP := c.regsP, regsC := c.regsC, txListeners := c.txListeners, t := expectedReturns, ixP := c.ixP, ixC := c.ixC }
     " | ".intercalate (renderSpecCase env [] (Spec.specCase env c.txs [] Ctx.empty))
 
 end StorageModel.Tx.Wire
